@@ -36,16 +36,18 @@ Local Open Scope Z_scope.
 (* client operations.  try_lock / try_lock_for / try_lock_until of cow_guarded cannot be
    instantiated (`return handle();` is ill-formed), so only lock() exists; [LockShared k s]:
    k = 10 lock_shared, 11 try_lock_shared, 12 try_lock_shared_for, 13 try_lock_shared_until
-   (all the same code path). *)
+   (all the same code path).  [ReleaseUnw s]: the write handle is destroyed by a scope guard's destructor
+   while an unrelated exception unwinds the stack (std::uncaught_exceptions() = 1); the exception is caught
+   inside the client operation.  The library code that runs is that of [Release s]. *)
 Inductive op :=
 | Lock (s : nat) | Write (s : nat) (v : Z) | Incr (s : nat) | ReadH (s : nat)
-| Release (s : nat) | Cancel (s : nat) | Move (a b : nat)
+| Release (s : nat) | ReleaseUnw (s : nat) | Cancel (s : nat) | Move (a b : nat)
 | LockShared (k : Z) (s : nat) | ReadSnap (s : nat) | DropSnap (s : nat) | CopySnap (a b : nat)
 | Refused (k : Z).
 Definition opcode (o : op) : Z :=
   match o with
   | Lock _ => 0 | Write _ _ => 4 | Incr _ => 5 | ReadH _ => 6 | Release _ => 7 | Cancel _ => 8 | Move _ _ => 9
-  | LockShared k _ => k | ReadSnap _ => 14 | DropSnap _ => 15 | CopySnap _ _ => 16 | Refused k => k
+  | LockShared k _ => k | ReadSnap _ => 14 | DropSnap _ => 15 | CopySnap _ _ => 16 | ReleaseUnw _ => 17 | Refused k => k
   end.
 Definition decode_op (z : list Z) : option op :=
   match z with
@@ -59,6 +61,7 @@ Definition decode_op (z : list Z) : option op :=
   | [14; s] => Some (ReadSnap (Z.to_nat s))
   | [15; s] => Some (DropSnap (Z.to_nat s))
   | [16; a; b] => Some (CopySnap (Z.to_nat a) (Z.to_nat b))
+  | [17; s] => Some (ReleaseUnw (Z.to_nat s))
   | [k; s] => if (10 <=? k) && (k <=? 13) then Some (LockShared k (Z.to_nat s)) else Some (Refused k)
   | k :: _ => Some (Refused k)
   | [] => None
@@ -311,6 +314,14 @@ Definition tstep (t c : nat) (g : glob) (l : loc) : option (glob * loc * list ev
         end
       | Release s =>
         (* ~handle: deleter(ptr): std::shared_ptr<const T> newPtr(ptr); the version can no longer be edited *)
+        match nth_error (wsl l) s with
+        | Some (Some h) =>
+          Some (set_heap g (fupd (heap g) h (set_pub (heap g h))) O,
+                start W_lock s h (upd (wsl l) s None) (ssl l) (tmp l) (ced l) (cbase l) (need l), [inv])
+        | _ => refuse
+        end
+      | ReleaseUnw s =>
+        (* the same destructor, run during stack unwinding *)
         match nth_error (wsl l) s with
         | Some (Some h) =>
           Some (set_heap g (fupd (heap g) h (set_pub (heap g h))) O,
